@@ -860,6 +860,32 @@ def check_cursor_loops(P, ctx):
     ctx.floor(rule, 5)
 
 
+def check_tuple_cursor(P, ctx):
+    """A cursor must identify a position.  Tuple hands out the element objects themselves as cursors and iter_next / iter_prev
+    look the cursor up by identity, taking the first match: with the same object stored twice the step is taken from the wrong
+    position (forward iteration then never ends)."""
+    rule = 'C11.cursor-identifies-position'
+    for m in ('iter_next', 'iter_prev'):
+        fn = P.fn(P.slot('Tuple', 'Iter', m))
+        g = P.cfg(fn)
+        ctx.fn(fn)
+        N = util.Norm(P, fn)
+        ITEMS = ('arrow', ('param', 0), 'items')
+        search = []
+        for n in g.live():
+            if n['kind'] != 'cond' or not g.innermost_loop_of(n['id']):
+                continue
+            c = N.canon(n['expr'])
+            if c[0] == 'bin' and c[1] in ('==', '!=') and ('param', 1) in (c[2], c[3]):
+                o = c[3] if c[2] == ('param', 1) else c[2]
+                if o[0] == 'idx' and o[1] == ITEMS:
+                    search.append(n)
+        ctx.check(not search, rule, 'Tuple.' + m, site(fn, search[0]['line'] if search else None),
+                  'the step of a Tuple cursor does not depend on finding the cursor among the elements by identity (ambiguous when an object is stored twice)',
+                  ['searched at %s' % g.describe(search[0])] if search else None)
+    ctx.floor(rule, 2)
+
+
 def run(ctx, load):
     P = load(UNITS, 'default', [WITNESS])
     ctx.stats['units'] = set(UNITS) | {'witness/macros.c'}
@@ -879,6 +905,7 @@ def run(ctx, load):
     check_slice_clamp(P, ctx)
     check_slice_positions(P, ctx)
     check_cursor_loops(P, ctx)
+    check_tuple_cursor(P, ctx)
     from .rules_c04 import check_list_links
     before = len(ctx.obs)
     check_list_links(P, ctx)
